@@ -59,6 +59,8 @@ func Run(prop, tier string) int {
 		if prop == "C10" {
 			n, fs := c10kAll()
 			sum.Clauses["boundary_cases(engine K: factor/trigger at health/price +-1e-18)"] = n
+			sum.Clauses["boundary_cases_that_really_closed"] = c10kClosures
+			sum.Clauses["boundary_cases_that_really_opened"] = c10kOpens
 			sum.Violations = append(sum.Violations, fs...)
 		}
 		if prop == "C12" {
